@@ -14,7 +14,7 @@ import (
 func init() {
 	Register(&PropDef{
 		ID: "C11", QuickRuns: 1600, RaceRuns: 480, Level: "exploration", Race: true,
-		Rule: "one run = 2-8 associations on one datapath (BESS or UP4, drawn) working in rounds: in every round each association sends one valid request for one of its own sessions - establishment (UE address given or UP-allocated, F-TEID given or CHOOSE, 0-2 QERs, first PDR pair match-all or carrying one of three application filters shared by the whole run, downlink FAR towards one of three gNBs shared by the whole run), FAR update (new tunnel / buffer / drop; on UP4 only those that stay off the listed findings), other modifications inside the supported envelope (BESS), deletion - all at the same instant or with drawn pacing (0-200 us); the agent's one-goroutine-per-association handlers, the per-rule goroutines of the BESS plug-in and the heartbeat monitors are interleaved by the token scheduler at statement level (run-to-block / random / PCT, scheduling points before socket writes). One round in eight is sent one request at a time (serial control: a rejection there is a generator matter, counted, not a finding). Oracles: (a) every request is answered once, and - concurrent rounds - accepted, as in every one-at-a-time ordering of these order-independent requests; (b) at the quiescent point after each round the datapath (simulated BESS modules / P4Runtime switch) equals the reference image of the union of all live sessions (C03 / C04 oracle, incl. tunnel_peers / applications 'present iff used'), id bijections hold (C15 oracle); (c) after a final concurrent deletion of everything: tables empty, UE pool and TEID generator empty, UP4 id pools back to their start sizes and bookkeeping maps empty (white-box bridge), session store empty, gauge 0; (d) no agent task panics, the agent stays alive; (e) race build: the same scenarios run under the race detector; token hand-over between tasks happens inside runtime.RaceDisable sections and therefore creates no happens-before edge, so two agent goroutines touching a plain map / slice / field without a lock of their own are reported although only one of them runs at a time; reports whose both accesses are agent code (not harness probes) are violations, signature = the two accessing functions.",
+		Rule: "one run = 2-8 associations on one datapath (BESS or UP4, drawn) working in rounds: in every round each association sends one valid request for one of its own sessions - establishment (UE address given or UP-allocated, F-TEID given or CHOOSE, 0-2 QERs, first PDR pair match-all or carrying one of three application filters shared by the whole run, downlink FAR towards one of three gNBs shared by the whole run), FAR update (new tunnel / buffer / drop; on UP4 only those that stay off the listed findings), other modifications inside the supported envelope (BESS), deletion - all at the same instant or with drawn pacing (0-200 us); the UE pool is large or so small (/28, /29) that a released address is handed out again at once (establishments whose acceptance then depends on the order within the round may be refused); in one round in three the only user of an application filter and gNB is deleted by its association while another association establishes the next user of the same filter and gNB; datapath RPC latency jitter 0-2 ms and occasional slow writes (1.5 / 5 ms) let the writes of two handlers overtake each other; the agent's one-goroutine-per-association handlers, the per-rule goroutines of the BESS plug-in and the heartbeat monitors are interleaved by the token scheduler at statement level (run-to-block / random / PCT, scheduling points before socket writes). One round in eight is sent one request at a time (serial control: a rejection there is a generator matter, counted, not a finding). Oracles: (a) every request is answered once, and - concurrent rounds - accepted, as in every one-at-a-time ordering of these order-independent requests; (b) at the quiescent point after each round the datapath (simulated BESS modules / P4Runtime switch) equals the reference image of the union of all live sessions (C03 / C04 oracle, incl. tunnel_peers / applications 'present iff used'), id bijections hold (C15 oracle); (c) after a final concurrent deletion of everything: tables empty, UE pool and TEID generator empty, UP4 id pools back to their start sizes and bookkeeping maps empty (white-box bridge), session store empty, gauge 0; (d) no agent task panics, the agent stays alive; (e) race build: the same scenarios run under the race detector; token hand-over between tasks happens inside runtime.RaceDisable sections and therefore creates no happens-before edge, so two agent goroutines touching a plain map / slice / field without a lock of their own are reported although only one of them runs at a time; reports whose both accesses are agent code (not harness probes) are violations, signature = the two accessing functions.",
 		Assume: []string{"requests of different associations are order-independent by construction (distinct UE addresses / TEIDs, pools larger than the load), so 'some one-at-a-time ordering' fixes each response's cause and the final image uniquely",
 			"race reports with a harness probe (bridge file, simulator goroutine) on either side are artefacts of reading white-box state at quiescence and are dropped (counted)"},
 		Real: CommonReal, Simulated: CommonSim,
@@ -29,19 +29,46 @@ type c11Pend struct {
 	m    *ModSpec
 	msg  message.Message
 	tag  string
+	pool      bool // establishment that asks the UPF for a UE address
+	mayReject bool // acceptance depends on the order within the round (pool nearly exhausted)
+}
+
+// delAllocPlanned counts the deletions already planned for this round whose session holds a pool address.
+func delAllocPlanned(pends []*c11Pend, usesPool func(*CPSession) bool) int {
+	n := 0
+	for _, pe := range pends {
+		if pe.kind == "del" && usesPool(pe.s) {
+			n++
+		}
+	}
+	return n
 }
 
 func scenarioC11(r *Run) {
 	r.FirstOnly = true
 	up4 := r.Ch.Choose(2, "datapath") == 1
 	var o UP4Opts
+	// UE pool: large, or so small that a released address is handed out again at once
+	pool := []string{"10.60.0.0/24", "10.60.0.0/28", "10.60.0.0/29"}[r.Ch.Choose(3, "pool")]
+	poolSize := map[string]int{"10.60.0.0/24": 254, "10.60.0.0/28": 14, "10.60.0.0/29": 6}[pool]
+	// RPC latency jitter lets the writes of two handlers overtake each other at the datapath
+	jit := []time.Duration{0, 50 * time.Microsecond, 400 * time.Microsecond, 2 * time.Millisecond}[r.Ch.Choose(4, "rpcjit")]
 	if up4 {
 		o = r.DrawUP4Conf()
+		r.W.P4.Faults.LatJit = jit
+		if r.Ch.Choose(3, "slow-writes") == 1 {
+			// now and then one Write takes several round trips longer (far inside every timeout)
+			r.W.P4.Faults.SlowDen, r.W.P4.Faults.SlowBy = 8, []time.Duration{1500 * time.Microsecond, 5 * time.Millisecond}[r.Ch.Choose(2, "slow-by")]
+		}
+		o.UEPool = pool
 	} else {
 		r.Conf = DefaultBESSConf()
-		r.Conf.CPIface.UEIPPool = "10.60.0.0/24"
-		r.W.Bess.Faults.LatJit = []time.Duration{0, 50 * time.Microsecond, 400 * time.Microsecond}[r.Ch.Choose(3, "rpcjit")]
+		r.W.Bess.Faults.LatJit = jit
+		if r.Ch.Choose(3, "slow-writes") == 1 {
+			r.W.Bess.Faults.SlowDen, r.W.Bess.Faults.SlowBy = 8, []time.Duration{1500 * time.Microsecond, 5 * time.Millisecond}[r.Ch.Choose(2, "slow-by")]
+		}
 	}
+	r.Conf.CPIface.UEIPPool = pool
 	r.Conf.EnableHBTimer = r.Ch.Choose(3, "hb") == 1
 	if r.Conf.EnableHBTimer {
 		r.Conf.HeartBeatInterval = []string{"5s", "20ms"}[r.Ch.Choose(2, "hbi")]
@@ -135,6 +162,7 @@ func scenarioC11(r *Run) {
 		g.ModKinds = []int{0, 0, 1, 2, 3, 4, 6, 7, 8}
 	}
 	shared := []*FlowSpec{g.Flow(false), g.Flow(false), g.Flow(false)}
+	nShared := 1 + r.Ch.Choose(3, "nshared") // fewer filters: more sharing, more last-user / first-user collisions
 	checkImage := func(ctx string) {
 		if up4 {
 			r.CheckUP4Image("C11", ctx, "round:up4", o)
@@ -154,6 +182,10 @@ func scenarioC11(r *Run) {
 		}
 		return out
 	}
+	// sessions that hold an address of the UE pool (an Update PDR rewrites the
+	// PDR with the address given, so the rule specs do not tell)
+	holder := map[*CPSession]bool{}
+	usesPool := func(s *CPSession) bool { return holder[s] }
 	// one round: build one request per participating peer, send, wait, judge
 	runRound := func(round int, pends []*c11Pend, serial bool) bool {
 		respType := func(pe *c11Pend) uint8 { return responseTypeOf(pe.msg.MessageType()) }
@@ -207,8 +239,12 @@ func scenarioC11(r *Run) {
 			rx.Used = true
 			c, _ := CauseOf(rx.Msg)
 			acc := c == ie.CauseRequestAccepted
-			r.Op("round %d %s peer%d %s %s -> cause=%d", round, mode, pe.p.Idx, pe.kind, pe.tag, c)
+			r.Op("round %d %s peer%d %s %s%s -> cause=%d", round, mode, pe.p.Idx, pe.kind, pe.tag, map[bool]string{true: " (UE address from the pool)", false: ""}[pe.pool], c)
 			kinds = append(kinds, pe.kind)
+			if !acc && pe.mayReject {
+				r.Probe("establishment-refused-pool-order")
+				continue
+			}
 			if !acc {
 				if serial {
 					// generator matter: the request is refused even when sent alone
@@ -223,10 +259,14 @@ func scenarioC11(r *Run) {
 			switch pe.kind {
 			case "est":
 				pe.p.Establish2(pe.s, rx.Msg.(*message.SessionEstablishmentResponse))
+				if pe.pool {
+					holder[pe.s] = true
+				}
 			case "mod":
 				pe.s.ApplyMod(pe.m)
 			case "del":
 				delete(pe.p.Sessions, pe.s.CPSEID)
+				delete(holder, pe.s)
 			}
 		}
 		sort.Strings(kinds)
@@ -237,24 +277,93 @@ func scenarioC11(r *Run) {
 	for round := 0; round < rounds && r.AgentAlive() && len(r.Violations) == 0; round++ {
 		serial := r.Ch.Choose(8, "serial-control") == 1
 		var pends []*c11Pend
+		// UE pool accounting of the round: an establishment that asks for an
+		// address is "sure" when the pool suffices in every order of the round's
+		// requests, "maybe" when it suffices only if this round's deletions come
+		// first (then a rejection is a legal outcome too), and not sent otherwise
+		liveAlloc, estAlloc, delAlloc := 0, 0, 0
+		for _, s := range r.LiveSessions() {
+			if usesPool(s) {
+				liveAlloc++
+			}
+		}
+		// In one round in three: hand-over of a shared object. The only session
+		// that uses an application filter (and its gNB) is deleted by its
+		// association while another association establishes the next user of the
+		// same filter and gNB - the release / allocate sequences of the shared
+		// applications and tunnel_peers entries then meet.
+		planned := map[*Peer]bool{}
+		if r.Ch.Choose(3, "handover-of-shared-object") == 1 {
+			type cand struct {
+				s *CPSession
+				f *FlowSpec
+			}
+			var cands []cand
+			for _, f := range shared[:nShared] {
+				var users []*CPSession
+				for _, s := range r.LiveSessions() {
+					if len(s.PDRs) > 0 && s.PDRs[0].SDF == f {
+						users = append(users, s)
+					}
+				}
+				if len(users) == 1 {
+					cands = append(cands, cand{users[0], f})
+				}
+			}
+			var takers []*Peer
+			if len(cands) > 0 {
+				c := cands[r.Ch.Choose(len(cands), "handover-which")]
+				for _, p := range r.Peers {
+					if p != c.s.Peer && len(sessionsOf(p)) < 3 {
+						takers = append(takers, p)
+					}
+				}
+				if len(takers) > 0 {
+					b := takers[r.Ch.Choose(len(takers), "handover-to")]
+					if usesPool(c.s) {
+						delAlloc++
+					}
+					pends = append(pends, &c11Pend{p: c.s.Peer, kind: "del", s: c.s, msg: c.s.Peer.DeleteMsg(c.s.UPSEID), tag: "-"})
+					ns := g.Session(b, SessShape{TEIDChoose: r.Ch.Choose(2, "choose") == 1, NQER: r.Ch.Choose(3, "nqer"), BaseSDF: c.f})
+					ns.Peer = b
+					if old, nf := c.s.FAR(2), ns.FAR(2); old != nil && nf != nil && old.HasOHC && nf.HasOHC {
+						nf.PeerIP = old.PeerIP
+					}
+					pends = append(pends, &c11Pend{p: b, kind: "est", s: ns, msg: b.EstablishMsg(ns), tag: fmt.Sprintf("q%d", len(ns.QERs))})
+					planned[c.s.Peer], planned[b] = true, true
+					r.Probe("shared-object-handed-over-between-associations")
+				}
+			}
+		}
 		for _, p := range r.Peers {
-			if r.Ch.Choose(6, "sits-out") == 1 {
+			if planned[p] || r.Ch.Choose(6, "sits-out") == 1 {
 				continue
 			}
 			mine := sessionsOf(p)
 			op := r.Ch.Choose(4, "op")
 			if len(mine) == 0 || (op == 0 && len(mine) < 3) {
 				sh := SessShape{UEAlloc: r.Ch.Choose(2, "uealloc") == 1, TEIDChoose: r.Ch.Choose(2, "choose") == 1, NQER: r.Ch.Choose(3, "nqer")}
-				if k := r.Ch.Choose(4, "appfilter"); k > 0 {
-					sh.BaseSDF = shared[k-1]
+				if k := r.Ch.Choose(5, "appfilter"); k > 0 {
+					sh.BaseSDF = shared[(k-1)%nShared]
+				}
+				if sh.UEAlloc && liveAlloc+estAlloc+1 > poolSize+delAllocPlanned(pends, usesPool) {
+					sh.UEAlloc = false
 				}
 				s := g.Session(p, sh)
 				s.Peer = p
-				pends = append(pends, &c11Pend{p: p, kind: "est", s: s, msg: p.EstablishMsg(s), tag: fmt.Sprintf("q%d", len(s.QERs))})
+				pe := &c11Pend{p: p, kind: "est", s: s, msg: p.EstablishMsg(s), tag: fmt.Sprintf("q%d", len(s.QERs))}
+				if sh.UEAlloc {
+					estAlloc++
+					pe.pool = true
+				}
+				pends = append(pends, pe)
 				continue
 			}
 			s := mine[r.Ch.Choose(len(mine), "sess")]
 			if op == 3 {
+				if usesPool(s) {
+					delAlloc++
+				}
 				pends = append(pends, &c11Pend{p: p, kind: "del", s: s, msg: p.DeleteMsg(s.UPSEID), tag: "-"})
 				continue
 			}
@@ -267,6 +376,16 @@ func scenarioC11(r *Run) {
 		if len(pends) == 0 {
 			continue
 		}
+		// establishments beyond what the pool holds without this round's deletions may be refused
+		if liveAlloc+estAlloc > poolSize {
+			for _, pe := range pends {
+				if pe.pool {
+					pe.mayReject = true
+				}
+			}
+			r.Probe("pool-depends-on-order-of-round")
+		}
+		r.Op("round %d: UE pool of %d, %d live sessions hold an address, this round asks for %d more and deletes %d holder(s)", round, poolSize, liveAlloc, estAlloc, delAlloc)
 		if !runRound(round, pends, serial) {
 			break
 		}
